@@ -189,6 +189,12 @@ class AccfgGen:
             return node
         # if
         node = self.if_node(scope, depth, inloop)
+        if p.get("switches") and r.random() < p["switches"]:
+            # the same two-way branch written as scf.index_switch (case 0 / default): a multi-region op tracing does not know
+            node["k"] = "sw"
+            node["sel"] = r.choice(["%n0", "%n1", "%n2"])
+            node.pop("cond")
+            return node
         if p.get("if_value") and r.random() < p["if_value"]:
             # the conditional also returns a value (one of two values visible in front of it); it can feed later setups
             name = self.fresh("fv")
@@ -317,7 +323,7 @@ def emit(ast, acc_names=None, vty="i32", decls=()) -> str:
                 if simple and sls and all(x["acc"] == a for x in sls) and a in last:
                     emit_state_loop(ind, s, a, last[a], last)
                     continue
-            if k in ("for", "if") or (k == "call" and s["eff"] != "none"):
+            if k in ("for", "if", "sw") or (k == "call" and s["eff"] != "none"):
                 last.clear()
             if k == "sl" and s.get("gap") and any(g["k"] == "call" and g["eff"] != "none" for g in s["gap"]):
                 stmt(ind, s, pick(s), last)
@@ -447,6 +453,14 @@ def emit(ast, acc_names=None, vty="i32", decls=()) -> str:
             e(ind, f'memref.store {s["val"]}, %mem[%c0] : memref<1x{vty}>')
         elif k == "ld":
             e(ind, f'{s["name"]} = memref.load %mem[%c0] : memref<1x{vty}>')
+        elif k == "sw":
+            e(ind, f'"scf.index_switch"({s["sel"]}) <{{cases = array<i64: 0>}}> ({{')
+            stmts(ind + 1, s["else"])
+            e(ind + 1, "scf.yield")
+            e(ind, "}, {")
+            stmts(ind + 1, s["then"])
+            e(ind + 1, "scf.yield")
+            e(ind, "}) : (index) -> ()")
         elif k == "if" and s.get("res"):
             name, tv, ev = s["res"]
             e(ind, f'{name} = scf.if {s["cond"]} -> ({vty}) {{')
@@ -523,9 +537,11 @@ def shrink_body(body):
             # unwrapping is only name-safe when the body does not use iv-derived values; the
             # candidate is simply rejected by the parser otherwise
             yield body[:i] + s["body"] + body[i + 1 :]
-        if k == "if":
+        if k in ("if", "sw"):
             yield body[:i] + s["then"] + body[i + 1 :]
             yield body[:i] + s["else"] + body[i + 1 :]
+        if k == "sw":
+            yield body[:i] + [dict({kk: vv for kk, vv in s.items() if kk != "sel"}, k="if", cond="%b0")] + body[i + 1 :]
         if k == "sl" and s.get("gap"):
             yield body[:i] + [dict(s, gap=[])] + body[i + 1 :]
         if k == "sl" and s.get("after"):
